@@ -347,8 +347,8 @@ def _nametransform_rule(repo, rep):
                       "names in the builtin set", construct="builtin-guard",
                       where=w)
         elif text.startswith("load("):
-            rep.check(any("aliased is not None" in c and v
-                          for c, v in conds), "R05.5", site,
+            rep.check(L.cond_holds(conds, "aliased is not None", True,
+                                   contains=True), "R05.5", site,
                       "compile-time aliases are used only when defined",
                       construct="alias", where=w)
         else:
@@ -404,8 +404,8 @@ def _scope_rule(repo, rep):
     for p in paths:
         if p[-1][0] == "return" and src(p[-1][1]) == "default":
             conds = [(src(e[1]), e[2]) for e in p if e[0] == "cond"]
-            if not any("value is not marker" in c and not v
-                       for c, v in conds):
+            if not L.cond_holds(conds, "value is not marker", False,
+                                contains=True):
                 ok = False
     rep.check(ok, "R05.6", g.qualname,
               "the default is returned only when neither layer has the key",
